@@ -64,6 +64,7 @@ def main():
     ap.add_argument('--every', action='store_true', help='run all seven checks, not only the expected ones')
     ap.add_argument('--json', help='write results to this file')
     ap.add_argument('--par', type=int, default=1, help='patches handled concurrently')
+    ap.add_argument('--merge', action='store_true', help='with --json: keep the entries of patches not run now')
     ap.add_argument('--only', help='substring filter on patch paths')
     args = ap.parse_args()
     items = []
@@ -138,6 +139,11 @@ def main():
             print('          ' + r['error'])
         sys.stdout.flush()
     if args.json:
+        if args.merge and os.path.exists(args.json):
+            ran = {r['patch'] for r in results}
+            old = [r for r in json.load(open(args.json)) if r['patch'] not in ran and
+                   os.path.exists(os.path.join(VERIF, r['patch']))]
+            results = sorted(old + results, key=lambda r: r['patch'])
         with open(args.json, 'w') as f:
             json.dump(results, f, indent=1, sort_keys=True)
     return 1 if bad else 0
